@@ -127,7 +127,13 @@ impl<'a> Ctx<'a> {
         let d1s = dot(&minus.xs, &plus.xs, &minus.ps);
         let d2s = dot(&minus.xs, &plus.xs, &plus.ps);
         let len: f64 = plus.x.iter().zip(&minus.x).map(|(a, b)| (a - b).abs()).sum::<f64>() + 1e-300;
-        let floor = 256.0 * self.eps_b * len * (maxabs(&minus.p).max(maxabs(&plus.p)) + 1e-300) * (plus.k.max(minus.k) as f64 + 1.0);
+        let kk = plus.k.max(minus.k) as f64 + 1.0;
+        // rounding of the positions themselves (half an ulp of |x| per leapfrog step, systematic when
+        // the same small increment is added again and again): absolute, not relative to the
+        // displacement x+ - x-, which matters once a step is only a few ulps of the position
+        let xround = 4.0 * self.eps_b * maxabs(&minus.x).max(maxabs(&plus.x)) * kk;
+        let psum = |p: &[f64]| p.iter().map(|v| v.abs()).sum::<f64>();
+        let floor = 256.0 * self.eps_b * len * (maxabs(&minus.p).max(maxabs(&plus.p)) + 1e-300) * kk + xround * psum(&minus.p).max(psum(&plus.p));
         let m1 = 64.0 * (d1 - d1s).abs() + floor;
         let m2 = 64.0 * (d2 - d2s).abs() + floor;
         if !(d1.is_finite() && d2.is_finite()) {
